@@ -282,6 +282,14 @@ def canon(e, env):
             return '%s(%s)' % (e['method'], ', '.join(sorted([canon(e['ch'][0], env), args_[0]])))
         if e['method'] == 'unwrap_or_else' and len(args_) == 1 and args_[0] in ('IsNone::none', '|| NULL', 'NULL'):
             return '%s.unwrap_or(NULL)' % canon(e['ch'][0], env)
+        # `o.map_or(d, f)` is `o.map(f).unwrap_or(d)`; `o.map_or_else(d, f)` is `o.map(f).unwrap_or_else(d)`
+        if e['method'] == 'map_or' and len(args_) == 2 and callee_is(e, 'Option::map_or'):
+            return '%s.map(%s).unwrap_or(%s)' % (canon(e['ch'][0], env), args_[1], args_[0])
+        if e['method'] == 'map_or_else' and len(args_) == 2 and callee_is(e, 'Option::map_or_else'):
+            inner_ = '%s.map(%s)' % (canon(e['ch'][0], env), args_[1])
+            if args_[0] in ('IsNone::none', '|| NULL', 'NULL'):
+                return '%s.unwrap_or(NULL)' % inner_
+            return '%s.unwrap_or_else(%s)' % (inner_, args_[0])
         # a default that is a pure nullary constructor: lazily or eagerly evaluated, the same value
         if e['method'] == 'unwrap_or_else' and len(args_) == 1 and \
                 args_[0] in ('Zero::zero', 'One::one', 'Default::default', '|| Zero::zero()', '|| One::one()',
@@ -393,7 +401,8 @@ def canon(e, env):
         b_ = peel(e['ch'][0])
         while b_.get('k') == 'Block' and not b_.get('stmts') and 'expr' in b_:
             b_ = peel(b_['expr'])
-        if len(names) >= 2 and b_.get('k') == 'MethodCall' and len(b_['ch']) == len(names) and \
+        if len(names) >= 1 and b_.get('k') == 'MethodCall' and len(b_['ch']) == len(names) and \
+                not callee_is(b_, *ERASE) and \
                 all(p_.get('k') == 'Binding' for p_ in e.get('params', [])) and \
                 all(peel(a_).get('k') == 'Path' and peel(a_).get('local') == p_.get('local')
                     for a_, p_ in zip(b_['ch'], e['params'])) and b_.get('callee'):
